@@ -1,6 +1,7 @@
 package main
 
 import (
+	"github.com/rminnich/go9p"
 	"github.com/rminnich/go9p/vs"
 	"fmt"
 	"os"
@@ -144,6 +145,9 @@ func c06MapMonitorScenarios(tier string) []Scenario {
 		}
 	}
 	out = append(out, c06UfsUserTableScenario(D, false), c06UfsUserTableScenario(D, true))
+	for i, sec := range []string{"walk", "clone", "stat", "open", "create", "remove", "clunk", "wstat"} {
+		out = append(out, c06PipelinedDependents(sec, i%2 == 0, D))
+	}
 	return out
 }
 
@@ -189,6 +193,74 @@ func c06UfsUserTableScenario(D int, two bool) Scenario {
 				}
 				return &Viol{Sig: "C06/concurrent-map-access/" + a + "/" + b, Msg: "unsynchronised concurrent access to a Go map by two requests in flight - the Go runtime aborts the whole process with 'fatal error: concurrent map read and map write': " + r.String()}
 			}
+		}
+		return nil
+	}
+	return Scenario{Name: name, Run: func(rc *RunCtx) *Result {
+		base, root = scratchDir("c06")
+		defer os.RemoveAll(base)
+		return runVs(rc, &VsSpec{Name: name, Body: body, Check: check, P: D, Delay: true})
+	}}
+}
+
+// a client that pipelines requests which depend on each other (it does not wait for the
+// Rwalk before using the new fid): the second request may meet the new fid at any
+// moment of its creation. Explored with every access of the library to shared data as a
+// scheduling point, so that half-made state is visible to the other request as it is on
+// real hardware.
+func c06PipelinedDependents(second string, dotu bool, D int) Scenario {
+	var base, root string
+	name := fmt.Sprintf("ufs pipelined dependent requests (access-level schedules) second=%s dotu=%v", second, dotu)
+	body := func() {
+		vs.EnableHBFine()
+		os.RemoveAll(root)
+		makeStdTree(root)
+		h := newUfsH(root, 8216, dotu)
+		c := h.Connect()
+		ver := "9P2000"
+		if dotu {
+			ver = "9P2000.u"
+		}
+		c.Version(8216, ver)
+		un := ""
+		if !dotu {
+			un = go9p.OsUsers.Uid2User(os.Geteuid()).Name()
+		}
+		c.Rpc(tattach(1, 0, wire.NOFID, un, uint32(os.Geteuid()), dotu))
+		var m2 *wire.Msg
+		switch second {
+		case "walk":
+			m2 = twalk(3, 5, 6, "h")
+		case "clone":
+			m2 = twalk(3, 5, 6)
+		case "stat":
+			m2 = &wire.Msg{Type: wire.Tstat, Tag: 3, Fid: 5}
+		case "open":
+			m2 = &wire.Msg{Type: wire.Topen, Tag: 3, Fid: 5, Mode: 0}
+		case "create":
+			m2 = &wire.Msg{Type: wire.Tcreate, Tag: 3, Fid: 5, Name: "made", Perm: 0644, Mode: 1}
+		case "remove":
+			m2 = &wire.Msg{Type: wire.Tremove, Tag: 3, Fid: 5}
+		case "clunk":
+			m2 = &wire.Msg{Type: wire.Tclunk, Tag: 3, Fid: 5}
+		case "wstat":
+			m2 = &wire.Msg{Type: wire.Twstat, Tag: 3, Fid: 5, Stat: wire.Stat{Type: 0xFFFF, Dev: 0xFFFFFFFF, Qid: wire.Qid{Type: 0xFF, Vers: 0xFFFFFFFF, Path: ^uint64(0)}, Mode: 0xFFFFFFFF, Atime: 0xFFFFFFFF, Mtime: 0xFFFFFFFF, Length: ^uint64(0), NUid: 0xFFFFFFFF, NGid: 0xFFFFFFFF, NMuid: 0xFFFFFFFF}}
+		}
+		vs.Window(true)
+		c.Send(dotu, twalk(2, 0, 5, "d"), m2)
+		vs.Idle()
+		vs.Window(false)
+		// the server is still there
+		if r := c.Rpc(&wire.Msg{Type: wire.Tstat, Tag: 9, Fid: 0}); r == nil || r.Type != wire.Rstat {
+			vs.Fail("the connection no longer answers: %v", r)
+		}
+	}
+	check := func(x *vs.Exec) *Viol {
+		for _, p := range x.Panics {
+			return &Viol{Sig: "C06/panic/" + p.Frame + "/" + panicClass(p.Value), Msg: "two well-formed requests pipelined by a client (a Twalk and a request on its new fid) make the server panic: " + p.Value + "\n" + trimStack(p.Stack)}
+		}
+		if len(x.Fails) > 0 {
+			return &Viol{Sig: "C06/liveness/" + sigWords(x.Fails[0]), Msg: x.Fails[0]}
 		}
 		return nil
 	}
